@@ -61,12 +61,26 @@ def _point_for(cls, k, v):
         while M.sqrt_p(xx ** 3 + M.A * xx + M.B) is not None:
             xx = (xx + 1) % M.P
         return xx, y
+    if cls in ("residual-bit", "residual-bit-mont"):
+        # an off-curve point whose equation residual y^2 - (x^3 + ax + b) is a single bit +-2^i: in the plain domain, or in the Montgomery
+        # domain (+-2^i / 2^256 mod p) in which the library compares the two sides - a comparison that skips part of a limb misses it
+        rinv = pow(1 << 256, -1, M.P)
+        hv = (v * 0x9E3779B97F4A7C15 + k) >> 11
+        for t in range(600):
+            i = (hv + t) % 256
+            delta = (1 << i) * (rinv if cls.endswith("mont") else 1) % M.P
+            if ((hv + t) >> 8) & 1:
+                delta = M.P - delta
+            yy = M.sqrt_p((x ** 3 + M.A * x + M.B + delta) % M.P)
+            if yy is not None and delta:
+                return x, yy
+        return x, (y + 1) % M.P
     if cls == "random":
         return v % M.P, (v * 3 + 1) % M.P
     raise AssertionError(cls)
 
 
-CLASSES = ["valid", "valid", "neg", "wrong-y", "x>=p", "y>=p", "x=p", "x+p", "y+p", "valid-small-x", "valid-small-y", "max", "zero", "y=0", "x=0", "no-sqrt", "random"]
+CLASSES = ["valid", "valid", "neg", "wrong-y", "x>=p", "y>=p", "x=p", "x+p", "y+p", "valid-small-x", "valid-small-y", "max", "zero", "y=0", "x=0", "no-sqrt", "random", "residual-bit", "residual-bit-mont", "residual-bit-mont"]
 
 pt_case = st.fixed_dictionaries({"cls": st.sampled_from(CLASSES), "k": st.one_of(st.integers(1, 50), gen.z256(M.N).map(u).filter(lambda a: a != 0)).map(h),
                                  "v": gen.z256(), "dirty": st.booleans()})
